@@ -14,6 +14,8 @@ elif base.startswith("m5_"):        # fifth wave: suffix g
     name = base[3:] + "_g"
 elif base.startswith("m6_"):        # sixth wave: suffix h
     name = base[3:] + "_h"
+elif base.startswith("m7_"):        # seventh wave: suffix i
+    name = base[3:] + "_i"
 else:
     name = base.replace("mut_", "")
 pid = name.split("_")[0]
